@@ -137,6 +137,56 @@ fn run(c: &ControlFlowGraph, init: &BTreeMap<String, Bv>, mem: &BTreeMap<u64, u8
     })
 }
 
+/// The instruction sequences that can be executed from the entry, guards ignored: every sequence that ends
+/// in a block without successors ("$") and every prefix of `max_ins` instructions ("..."). None when the
+/// graph has no usable entry or the enumeration is too large.
+fn path_language(c: &ControlFlowGraph, max_ins: usize) -> Option<BTreeSet<String>> {
+    let entry = c.entry()?;
+    c.block(entry).ok()?;
+    let mut out = BTreeSet::new();
+    let mut work: Vec<(usize, Vec<String>, BTreeSet<usize>)> = vec![(entry, Vec::new(), [entry].into_iter().collect())];
+    let mut budget = 30_000usize;
+    while let Some((b, mut seq, mut seen)) = work.pop() {
+        if budget == 0 {
+            return None;
+        }
+        budget -= 1;
+        let block = c.block(b).ok()?;
+        let mut truncated = false;
+        for ins in block.instructions() {
+            seq.push(format!("{:x?} {}", ins.address(), ins.operation()));
+            if seq.len() >= max_ins {
+                truncated = true;
+                break;
+            }
+        }
+        if truncated {
+            out.insert(format!("{} ...", seq.join(" ; ")));
+            continue;
+        }
+        if !block.instructions().is_empty() {
+            seen = BTreeSet::new();
+        }
+        let succ: Vec<usize> = c.edges().iter().filter(|e| e.head() == b).map(|e| e.tail()).collect();
+        if succ.is_empty() {
+            out.insert(format!("{} $", seq.join(" ; ")));
+            continue;
+        }
+        for t in succ {
+            // going round a cycle of empty blocks adds no instruction: do not revisit
+            let mut seen2 = seen.clone();
+            if !seen2.insert(t) && block.instructions().is_empty() {
+                continue;
+            }
+            if c.block(t).is_err() {
+                continue;
+            }
+            work.push((t, seq.clone(), seen2));
+        }
+    }
+    Some(out)
+}
+
 fn init_state(rng: &mut Rng, pool: &[il::Scalar]) -> (BTreeMap<String, Bv>, BTreeMap<u64, u8>) {
     let mut init = BTreeMap::new();
     for s in pool {
@@ -273,7 +323,25 @@ impl C15 {
                 _ => {
                     what = "merge";
                     hist.push(format!("g{}.merge()", gi));
-                    guard(|| gs[gi].merge())
+                    let before = gs[gi].clone();
+                    let r = guard(|| gs[gi].merge());
+                    if let Ok(Ok(())) = &r {
+                        // merging must not change the instruction sequences that can be executed from the entry
+                        if let (Some(a), Some(b)) = (path_language(&before, 6), path_language(&gs[gi], 6)) {
+                            ctx.eval();
+                            if a != b {
+                                let only_before: Vec<&String> = a.difference(&b).take(3).collect();
+                                let only_after: Vec<&String> = b.difference(&a).take(3).collect();
+                                ctx.violation("merge:changes_executable_sequences:edit_history", json!({"history": hist, "before": cfg_json(&before), "after": cfg_json(&gs[gi]),
+                                    "only_before": only_before, "only_after": only_after}));
+                                return;
+                            }
+                            if before.blocks().len() != gs[gi].blocks().len() {
+                                ctx.class(&format!("edit_merge/merged{}", (before.blocks().len() - gs[gi].blocks().len()).min(4)));
+                            }
+                        }
+                    }
+                    r
                 }
             };
             ctx.eval();
@@ -316,6 +384,15 @@ impl C15 {
         }
         if !self.check_inv(ctx, &after, "merge", &hist) {
             // keep going: meaning can still be compared
+        }
+        if let (Some(a), Some(b)) = (path_language(&before, 6), path_language(&after, 6)) {
+            ctx.eval();
+            if a != b {
+                let only_before: Vec<&String> = a.difference(&b).take(3).collect();
+                let only_after: Vec<&String> = b.difference(&a).take(3).collect();
+                ctx.violation("merge:changes_executable_sequences", json!({"before": cfg_json(&before), "after": cfg_json(&after), "only_before": only_before, "only_after": only_after}));
+                return;
+            }
         }
         let merged = before.blocks().len() - after.blocks().len();
         for _ in 0..4 {
